@@ -48,6 +48,19 @@ pub struct Shared {
     pub gpu: Option<GpuBackend>,
     /// identity of the file the handler returned last (for `same open file` checks on the frontend side)
     pub last_returned: Option<Ino>,
+    /// every file a handler returned by value (the library owns those: they count for the leak check, ids 900..)
+    pub returned: Vec<Ino>,
+}
+
+impl Shared {
+    /// `objs` plus the files handed out by handlers (ids 900 + k)
+    pub fn all_objs(&self, base: &HashMap<Ino, u32>) -> HashMap<Ino, u32> {
+        let mut m = base.clone();
+        for (k, i) in self.returned.iter().enumerate() {
+            m.entry(*i).or_insert(900 + k as u32);
+        }
+        m
+    }
 }
 
 #[derive(Clone)]
@@ -86,7 +99,13 @@ impl Rec {
     fn fresh_file(&self) -> File {
         use std::os::unix::io::FromRawFd;
         let fd = new_memfd(0);
-        self.sh.lock().unwrap().last_returned = ino_of(fd);
+        {
+            let mut sh = self.sh.lock().unwrap();
+            sh.last_returned = ino_of(fd);
+            if let Some(i) = ino_of(fd) {
+                sh.returned.push(i);
+            }
+        }
         unsafe { File::from_raw_fd(fd) }
     }
 }
